@@ -131,7 +131,7 @@ func c17Carries(text string) []string {
 		}
 	}
 	for _, code := range []string{"S5", "S6"} {
-		if strings.Contains(text, "<summary>"+c17Summary[code]+"</summary>") && strings.Contains(text, c17Quote[code]) {
+		if strings.Contains(text, c17Summary[code]) && strings.Contains(text, c17Quote[code]) {
 			out = append(out, code)
 		}
 	}
@@ -461,6 +461,9 @@ type c17RecComment struct {
 }
 
 func c17AbsPath(p string) string {
+	if p == "" {
+		return ""
+	}
 	switch filepath.Base(p) {
 	case "rules1.yml":
 		return "F1"
@@ -638,7 +641,7 @@ func c17RunCase(id int, cs c17Case, emit func(any)) error {
 		emit(map[string]any{"ev": "Run", "id": id, "run": rn + 1, "reports": reps, "shift": run.Var.Shift, "mod": run.Var.Mod,
 			"pending": pend, "before": in.comments(m.before), "listed": m.listed, "calls": m.calls, "callsobs": true,
 			"creates": in.comments(m.creates), "deleted": m.deleted, "after": in.comments(m.store),
-			"isequal": m.isEqual, "err": errStr, "fault": m.fault, "hit": m.hit, "nerrs": m.nerrs})
+			"isequal": m.isEqual, "notice": 0, "err": errStr, "fault": m.fault, "hit": m.hit, "nerrs": m.nerrs})
 	}
 	return nil
 }
